@@ -231,8 +231,9 @@ def random_stream(res, tier, cpp_exe, spec_exe, gen_exe):
         a, b, c, d, q = rows[i]
         return {'what': what, 'fn': field, 'kind': kinds[i], 'a': list(a), 'b': list(b), 'c': list(c), 'd': list(d),
                 'q': list(q), 'implementation': impl, other_name: other,
-                'replay': "echo '%s' | build/.../c16_geom rand   (harness/c16_geom.cpp rand mode; field '%s')"
-                          % (' '.join('%d %d' % p for p in rows[i]), field)}
+                'replay': "echo '%s' | %s rand   (harness/c16_geom.cpp rand mode, output position/field '%s'; "
+                          "line format: ax ay bx by cx cy dx dy qx qy)"
+                          % (' '.join('%d %d' % p for p in rows[i]), cpp_exe, field)}
 
     def num_differs(x, y):
         if x == '-' or y == '-':
@@ -434,14 +435,24 @@ META = {
     'property_id': PID,
     'level_claimed': {
         'category': 'proof',
-        'text': 'Theorems in Coq over the Gallina definitions that tools/cpp2v.py regenerates from geometry.h/geometry.cpp on every run: '
-                'vecDir = sign of the cross product, segmentIntersect <-> the open segments properly cross (existential over rational '
-                'parameters), pointOnLine <-> strictly between, inPoly <-> all edge cross products non-negative (positive without border), '
-                'with the swap/reversal symmetries; all for every rational input. The tie is the translator plus, on every run, an '
-                'exhaustive three-way comparison (compiled C++ / extracted generated code / extracted spec deciders) on integer grids.',
+        'text': 'Theorems in Coq over the Gallina definitions that tools/cpp2v.py regenerates from geometry.h/geometry.cpp on every run, '
+                'all for every rational input: vecDir = sign of the cross product; segmentIntersect <-> the open segments properly cross; '
+                'pointOnLine <-> strictly between; colinear <-> cross = 0; inBetween <-> strictly between (collinear inputs, a.x = b.x or '
+                '|a.x-b.x| > epsilon; the epsilon gap is exhibited by inBetween_eps_refuted); cornerSide / inValidRegion = the case tables '
+                'on the signs of the cross products (convex corner: valid <-> not strictly inside the cone); segmentShapeIntersect flag '
+                'semantics and the closed form of its fold over a shape (blocked <-> some edge properly crossed or two edges touched); '
+                'segmentIntersectPoint: DO_INTERSECT <-> f <> 0 and the closed segments share a point, which is the returned (x,y), '
+                'PARALLEL <-> f = 0 and they share a point (including zero-length segments), out-parameters otherwise untouched; '
+                'rayIntersectPoint; inPoly <-> all edge cross products non-negative (positive without border); inPolyGen = the '
+                'division-free crossing-parity rule for every polygon, = closed-region membership for every non-degenerate triangle '
+                'and every axis-parallel rectangle in any vertex order, true at every vertex; manhattanDist, projection; the swap / '
+                'reversal / translation symmetries and the eight symmetries of the square with the orientation sign tracked. The tie is the '
+                'translator plus, on every run, an exhaustive three-way comparison (compiled C++ / extracted generated code / extracted '
+                'spec deciders) on integer grids and on a seeded structured random stream of integer tuples up to 2^20.',
         'design_ref': 'DESIGN.md 5.16'},
-    'level_note': 'Trusted: Coq kernel; cpp2v.py + clang JSON AST; exact-rational model of binary64 (exact on the small-integer inputs the '
-                  'property names; checked by the grid comparison); extraction (ExtrOcamlBasic) and the OCaml/C++ drivers. Modelled not verified: '
-                  'inPolyGen, segmentIntersectPoint, inValidRegion, cornerSide are translated and compared on grids but have no spec theorem yet.',
-    'technique': 'Coq proof over cpp2v-regenerated Gallina + exhaustive grid correspondence',
+    'level_note': 'Trusted: Coq kernel; cpp2v.py + clang JSON AST; exact-rational model of binary64 (exact on the integer inputs the '
+                  'property names: all products below 2^53; quotients compared within 1e-9; checked by the grid and random-stream '
+                  'comparison); extraction (ExtrOcamlBasic) and the OCaml/C++ drivers. Stated but not proved: inPolyGen for general simple '
+                  'polygons (inPolyGen_general_partial, needs a Jordan-curve argument). Not modelled: angle, rotationalAngle, euclideanDist.',
+    'technique': 'Coq proof over cpp2v-regenerated Gallina + exhaustive grid and random-stream correspondence',
 }
